@@ -55,6 +55,12 @@ def r1(ctx):
     ar = sorted({prog.root_of(f).short for f, _, _ in aggregates(prog, US)})
     ctx.check(all(glob_any(a, [US + '::new', '*Deserialize*', '*__Visitor*', '*::deserialize*']) for a in ar) and US + '::new' in ar, 'R1', 'constructors', '',
               'UtxoSet values are built only by UtxoSet::new and the deserialiser', 'UtxoSet constructed in %s' % ar)
+    # the stable height only advances where the anchor is popped right after: the two ingestion entry
+    # points are called from the ingestion loop only (an upgrade hook or endpoint that drives the UTXO
+    # set directly would advance the height and leave the anchor in the tree)
+    require_callers(ctx, 'R1', 'callers:ingest_block_continue', [US + '::ingest_block_continue'],
+                    {'ic_btc_canister::state::ingest_stable_blocks_into_utxoset', US + '::ingest_block'})
+    require_callers(ctx, 'R1', 'callers:ingest_block', [US + '::ingest_block'], {'ic_btc_canister::state::ingest_stable_blocks_into_utxoset'})
     f = ctx.fn('R1', US + '::ingest_block_continue')
     if f:
         fa = field_assignments(prog, f, US, 'next_height')
